@@ -37,11 +37,11 @@ Proof. exact method_list_rejected. Qed.
 Print Assumptions C03_method_list_rejected.
 
 (** C03-F4: a non-empty list denoting no method is turned into "all methods" *)
-Theorem C03_F4_refuted :
+Theorem C03_F4_pinned_refuted :
   exists r cm q, only_matcher false r = Some cm /\ guard_F4 false (rl_methods r) = true /\
     route_matches false true true eng_none cm q [] [] = MYes /\ spec_route_ok eng_none r [] q [] [] = false.
 Proof. exact F4_refuted. Qed.
-Print Assumptions C03_F4_refuted.
+Print Assumptions C03_F4_pinned_refuted.
 
 (** hosts: any one of the listed expressions, unless they disagree (C03-F1) *)
 Theorem C03_hosts_any : forall fx1 eng hs q,
@@ -49,11 +49,11 @@ Theorem C03_hosts_any : forall fx1 eng hs q,
 Proof. exact hosts_semantics. Qed.
 Print Assumptions C03_hosts_any.
 
-Theorem C03_F1_refuted :
+Theorem C03_F1_pinned_refuted :
   exists r cm q, only_matcher false r = Some cm /\ guard_F1 false eng_none (rl_hosts r) q = true /\
     route_matches false true true eng_none cm q [] [] = MNo /\ spec_route_ok eng_none r [] q [] [] = true.
 Proof. exact F1_refuted. Qed.
-Print Assumptions C03_F1_refuted.
+Print Assumptions C03_F1_pinned_refuted.
 
 (** the decoding of a captured value per encoded-slash setting: `on` = percent-decoded;
     `off` / `no_decode` = percent-decoded with encoded slashes left as they are *)
